@@ -9,7 +9,7 @@ PoolVal3 == (100 :> 3 @@ 101 :> 3 @@ 102 :> 2)
 Pool5 == {100, 101, 102, 103, 104}
 PoolVal5 == (100 :> 3 @@ 101 :> 3 @@ 102 :> 2 @@ 103 :> 1 @@ 104 :> 4)
 
-CONSTANT SimProfile   \* "mixed" | "flags" | "locks" | "plain" | "deep" | "respend": bias of the simulation-only minting
+CONSTANT SimProfile   \* "mixed" | "flags" | "locks" | "plain" | "deep" | "respend" | "nrd": bias of the simulation-only minting
 
 VARIABLE hist      \* observation only: the delivered steps with the projection after each
 mcvars == <<tree, n, ndel, last, hist>>
@@ -31,8 +31,8 @@ MintSim ==
   \E rp \in {RandomElement(1..10)} :
   \E lv \in {CHOOSE b \in vb : \A x \in vb : x <= b} :
   \E p \in {IF SimProfile = "deep" /\ rp <= 6 THEN RandomElement({b \in Ids : Height(b) <= 4})   \* fork points far below the head
-             ELSE IF SimProfile = "respend" /\ rp <= 4 /\ lv # 0 THEN Parent(lv)                   \* sibling of the latest valid block
-             ELSE IF SimProfile = "respend" /\ rp <= 9 THEN lv
+             ELSE IF SimProfile \in {"respend", "nrd"} /\ rp <= 4 /\ lv # 0 THEN Parent(lv)        \* sibling of the latest valid block
+             ELSE IF SimProfile \in {"respend", "nrd"} /\ rp <= 9 THEN lv
              ELSE IF rp <= 2 THEN RandomElement(Ids)                                    \* mostly extend the latest valid block
              ELSE IF rp <= 4 THEN RandomElement(vb)
              ELSE CHOOSE b \in vb : \A x \in vb : x <= b} :
@@ -46,7 +46,12 @@ MintSim ==
   \E good \in {{t \in bt : t.ins \subseteq mature /\ t.outs \cap live = {} /\ LockH(t) <= Height(p) + 1}} :
   \E edge \in {{t \in bt : (\A c \in t.ins : c < 100) \/ t.lock # 0}} :
   \E fresh \in {{t \in good : t.ins \cap tree[p].tx.outs # {}}} :           \* spends an output created by the parent block
-  \E t \in {IF SimProfile = "respend"
+  \E nrdtx \in {{t \in bt : IsNrd(t) /\ NrdKey(t) = 1 /\ t.ins \subseteq mature /\ t.outs \cap live = {}}} :   \* same excess again and again
+  \E t \in {IF SimProfile = "nrd"
+             THEN (IF r <= 1 \/ bt = {} THEN NoTx
+                   ELSE IF r <= 8 /\ nrdtx # {} THEN RandomElement(nrdtx)
+                   ELSE IF good # {} THEN RandomElement(good) ELSE NoTx)
+             ELSE IF SimProfile = "respend"
              THEN (IF r <= 1 \/ bt = {} THEN NoTx
                    ELSE IF r <= 6 /\ fresh # {} THEN RandomElement(fresh)
                    ELSE IF good # {} THEN RandomElement(good) ELSE NoTx)
